@@ -55,17 +55,18 @@ spec = {
  "time_budget_s": {"quick": 400, "thorough": 4800},
  "units": [
   {"name": "codec", "pkg": "github.com/ogen-go/ogen/openapi/parser", "dir": "openapi/parser", "harness": ["harness_codec.go"],
+   "links": {"zzGenSupported": "github.com/ogen-go/ogen/gen.isSupportedParamStyle"}, "extra_pkgs": ["github.com/ogen-go/ogen/gen"],
    "cases": {"quick": [{"entry": "HCodec", "args": quick}], "thorough": [{"entry": "HCodec", "args": thorough}]}},
   {"name": "cookie-escape", "pkg": "github.com/ogen-go/ogen/uri", "dir": "uri", "harness": ["harness_cookie.go"],
    "cases": {"quick": [{"entry": "HCookieEscape", "product": [[0, 5]]}, {"entry": "HCookieUnescape", "product": [[0, 5]]}],
              "thorough": [{"entry": "HCookieEscape", "product": [[0, 8]]}, {"entry": "HCookieUnescape", "product": [[0, 7]]}]}},
  ],
  "bounds": {
-  "table": "all 48 syntactically possible (location, style, explode, shape) entries; each is first classified by the REAL openapi/parser.validateParamStyle (executed from SSA) and driven only when admitted (spaceDelimited is filtered as the generator does)",
+  "table": "all 48 syntactically possible (location, style, explode, shape) entries; each is first classified by the REAL openapi/parser.validateParamStyle (executed from SSA) and driven only when admitted and by the REAL gen.isSupportedParamStyle (reached through go:linkname natively, redirected to its SSA body under the engine)",
   "values": "quick: scalar 0..2 symbolic bytes, arrays of 0..3 items, objects of 0..2 fields (0: none of the optional fields set), at most 3 symbolic bytes in total; thorough: item/field lengths to 3 with at most 3 symbolic bytes in total, scalars to 4 bytes, two more field-name sets (4 and 5 symbolic bytes in arrays/objects did not finish within 80 minutes and are not claimed); every byte ranges over all 256 values",
   "names": "parameter name 'p'; object field-name sets {a,b}, {a,x=y}, {a,'c,d'} (thorough also {a,'e;f'}, {a,g.h})",
   "cookie_escape": "escape/unescape pair on every string of length 0..5 (quick) / 0..8 (thorough)"},
- "assumptions": ["generated code's driving pattern (EncodeValue/EncodeArray/EncodeField, Result, url.PathUnescape, HasParam, DecodeParam) is reproduced by the harness", "log.Printf in net/http cookie sanitising is a no-op", "generator filter isSupportedParamStyle (spaceDelimited not implemented) is hard-coded", "formatting of error messages is opaque"],
+ "assumptions": ["generated code's driving pattern (EncodeValue/EncodeArray/EncodeField, Result, url.PathUnescape, HasParam, DecodeParam) is reproduced by the harness", "log.Printf in net/http cookie sanitising is a no-op", "formatting of error messages is opaque"],
  "out_of_claim": "maps (additionalProperties) as parameters, longer values, other parameter names, allowReserved, the transport (net/http header canonicalisation/trimming on a real connection), content-typed (JSON) parameters"
 }
 with open(os.path.join(os.path.dirname(__file__), "check.json"), "w") as f:
